@@ -198,14 +198,15 @@ def panics(chk, F, tier):
         if which == 'polling' and 'std' not in F.features:
             continue
         try:
-            model, spec, P = scanners.product(F, which)
+            model, spec, P, allp = scanners.product(F, which)
         except Exception as e:       # noqa
             chk.ob('%s/panic/%s/automaton/%s' % (PID, cfg, which), 'dead panic site', 'unproven', why='automaton extraction failed: %r' % (e,))
             continue
         for m in ('feed', 'poll', 'reset'):
-            if model.sub_key(m):
-                elem_fns[model.sub_key(m)] = which
-        prod_panics[which] = [r for r in P.rows if r.outcome_kind in ('panic', 'lost')]
+            for fk in (model.sub_key(m), model.outer_key(m)):
+                if fk:
+                    elem_fns[fk] = which
+        prod_panics[which] = [r for k in sorted(allp) for r in allp[k].rows if r.outcome_kind in ('panic', 'lost')]
     groups = {}
     for site, kind, text in sites:
         groups.setdefault(site[0], []).append((site, kind, text))
